@@ -59,6 +59,20 @@ def run_template(tpl):
         case = H.Case(tpl["id"], tpl["ast"], tpl["structs"], nrows=tpl.get("nrows", 2), scalars=tpl.get("scalars"),
                       scalar_values=tpl.get("scalar_values"), opts=tpl.get("opts"), evaluator_cls=_evaluator(tpl)).build()
         out["sql"] = [q[1][:600] for q in case.pipe.queries]
+        if tpl.get("probe_first"):
+            # contexts whose failure is decided by the schema, not by the data (case-variant names collide inside DuckDB for every input): the real
+            # engine is probed on a few concrete valid inputs first; only contexts that survive are decided symbolically
+            info = case.probe_real(seed=int(os.environ.get("VERIF_SEED") or 0))
+            if info is None:
+                try:
+                    info = _concrete_fallback(case, tpl, REF)
+                except Exception as e:  # noqa
+                    info = None
+                    out["notes"].append("concrete comparison not possible: %s" % str(e)[:120])
+            if info is not None:
+                info["script"] = out["script"]
+                out.update(status="violated", key="%s:%s" % (tpl["id"], _classify(info)), info=info, what=info["what"] + " - " + str(info.get("observed"))[:160])
+                return out
         try:
             case.encode()
         except (Unsupported, sqlglot_errors.ParseError) as e:
